@@ -4,7 +4,9 @@
 //! tablet list (ranges, replicas, unresolved replicas) and the three lookups for every watched token.
 //!
 //! One case line = one history:
-//!   H <tables> <tokens> <dcs> <op> <op> ... | <obs step 1> <obs step 2> ...
+//!   H? <tables> <tokens> <dcs> <op> <op> ... | <obs step 1> <obs step 2> ...
+//! H? = generator part: Hs scenario, Hx reachable-set exhaustive, Ha short exhaustive alphabet, Hr random over the
+//! 8-point universe, Hi / Hl random over i64 (short / long), Hd random with datacenter-changing recreations
 //! tables  ks.tb,ks.tb            (hex)            watched tables
 //! tokens  t,t,...                (signed hex)     watched tokens
 //! dcs     d,d,...                (hex)            watched datacenters
@@ -14,7 +16,7 @@
 //! obs     <res>~<info flag>~<table>~<table>...    res: a<unresolved> | rWrongTokenRange | rShardNum | m | panic
 //!   table   A | <flag>[<tablet>;...]@<lookup>@<lookup>...
 //!   tablet  <first>:<last>:<replicas>:<failed|n>      replica <host>.<gen>.<dc|n>.<shard>
-//!   lookup  n | <first>:<last>:<all>:<dc list>/<dc list>...
+//!   lookup  n | <first>:<last>:<all>:<dc list>/<dc list>... | =<index of an earlier token of the table with the same answer>
 use bytes::Bytes;
 use scylla::cluster::verif_node::node_without_pool;
 use scylla::cluster::{Node, NodeAddr};
@@ -237,13 +239,14 @@ fn observe(v: &VerifTablets, res: &str, tables: &[(u32, u32)], tokens: &[i64], d
             None => s.push_str("~A"),
             Some((flag, list)) => {
                 write!(s, "~{}[{}]", flag as u8, list.iter().map(tablet_s).collect::<Vec<_>>().join(";")).unwrap();
+                // identical lookup answers within one table are printed once: "=<index of the first token with that answer>"
+                let mut seen: Vec<String> = Vec::new();
                 for tok in tokens {
                     let t = v.tablet_for_token(&ksn, &tbn, *tok).unwrap();
                     let all = v.replicas_for_token(&ksn, &tbn, *tok).unwrap();
-                    match (t, all) {
-                        (None, None) => s.push_str("@n"),
+                    let lk = match (t, all) {
+                        (None, None) => "n".to_string(),
                         (Some(t), Some(all)) => {
-                            write!(s, "@{}:{}:{}:", hex_i(t.first as i128), hex_i(t.last as i128), reps_s(&all)).unwrap();
                             let per: Vec<String> = dcs
                                 .iter()
                                 .map(|d| match v.dc_replicas_for_token(&ksn, &tbn, *tok, &format!("dc{:x}", d)).unwrap() {
@@ -251,10 +254,15 @@ fn observe(v: &VerifTablets, res: &str, tables: &[(u32, u32)], tokens: &[i64], d
                                     None => "?".into(),
                                 })
                                 .collect();
-                            s.push_str(&per.join("/"));
+                            format!("{}:{}:{}:{}", hex_i(t.first as i128), hex_i(t.last as i128), reps_s(&all), per.join("/"))
                         }
-                        _ => s.push_str("@inconsistent"),
+                        _ => "inconsistent".to_string(),
+                    };
+                    match seen.iter().position(|x| *x == lk) {
+                        Some(i) if lk != "n" => write!(s, "@={:x}", i).unwrap(),
+                        _ => write!(s, "@{}", lk).unwrap(),
                     }
+                    seen.push(lk);
                 }
             }
         }
@@ -263,6 +271,7 @@ fn observe(v: &VerifTablets, res: &str, tables: &[(u32, u32)], tokens: &[i64], d
 }
 
 struct Hist {
+    kind: &'static str,
     tables: Vec<(u32, u32)>,
     tokens: Vec<i64>,
     dcs: Vec<u32>,
@@ -270,7 +279,8 @@ struct Hist {
 }
 fn hist_s(h: &Hist) -> String {
     let mut s = format!(
-        "H {} {} {}",
+        "{} {} {} {}",
+        h.kind,
         join(&h.tables, ",", |(k, t)| format!("{}.{}", hex_u(*k as u128), hex_u(*t as u128))),
         join(&h.tokens, ",", |t| hex_i(*t as i128)),
         join(&h.dcs, ",", |d| hex_u(*d as u128))
@@ -283,8 +293,9 @@ fn hist_s(h: &Hist) -> String {
 }
 fn p_hist(case: &str) -> Hist {
     let f: Vec<&str> = case.split_whitespace().collect();
-    assert!(f[0] == "H");
+    assert!(f[0].starts_with('H'));
     Hist {
+        kind: "H",
         tables: p_list(f[1], ',')
             .iter()
             .map(|x| {
@@ -412,7 +423,7 @@ fn gen_exhaustive(out: &mut Out, limit_states: usize) -> (usize, usize) {
             let n_pref = ops.len();
             ops.push(maint.clone());
             ops.push(l.clone());
-            let h = Hist { tables: vec![(1, 1)], tokens: Q8.to_vec(), dcs: vec![0, 1], ops };
+            let h = Hist { kind: "Hx", tables: vec![(1, 1)], tokens: Q8.to_vec(), dcs: vec![0, 1], ops };
             let (o, ranges) = run_hist(&h);
             out.case(&hist_s(&h), &o);
             lines += 1;
@@ -455,7 +466,7 @@ fn gen_exhaustive_short(out: &mut Out, len: usize) -> usize {
     let mut lines = 0;
     loop {
         let ops: Vec<Op> = idx.iter().map(|i| letters[*i].clone()).collect();
-        let h = Hist { tables: vec![(1, 1)], tokens: vec![i64::MIN, i64::MIN + 1, -1, 0, 1, i64::MAX - 1, i64::MAX], dcs: vec![0, 1], ops };
+        let h = Hist { kind: "Ha", tables: vec![(1, 1)], tokens: vec![i64::MIN, i64::MIN + 1, -1, 0, 1, i64::MAX - 1, i64::MAX], dcs: vec![0, 1], ops };
         let (o, _) = run_hist(&h);
         out.case(&hist_s(&h), &o);
         lines += 1;
@@ -503,7 +514,7 @@ fn gen_bound(r: &mut Rng, small: bool, used: &[i64]) -> i64 {
     }
 }
 
-fn gen_random_history(r: &mut Rng, len: usize, small: bool, dc_changes: bool) -> Hist {
+fn gen_random_history(r: &mut Rng, kind: &'static str, len: usize, small: bool, dc_changes: bool) -> Hist {
     let hosts: Vec<u128> = (1..=6).collect();
     let dc_of = |h: u128| -> Option<u32> { if h == 6 { None } else { Some((h % 3) as u32) } };
     let mut w = World {
@@ -623,7 +634,7 @@ fn gen_random_history(r: &mut Rng, len: usize, small: bool, dc_changes: bool) ->
             toks.insert(t);
         }
     } else {
-        let want = 28;
+        let want = 20;
         let mut guard = 0;
         while toks.len() < want && guard < 400 {
             guard += 1;
@@ -636,7 +647,7 @@ fn gen_random_history(r: &mut Rng, len: usize, small: bool, dc_changes: bool) ->
         }
     }
     let tables = if r.chance(1, 2) { vec![(1, 1)] } else { vec![(1, 1), (1, 3), (2, 1)] };
-    Hist { tables, tokens: toks.into_iter().collect(), dcs: vec![0, 1, 2], ops }
+    Hist { kind, tables, tokens: toks.into_iter().collect(), dcs: vec![0, 1, 2], ops }
 }
 
 /// Histories built to hit the two known findings and their neighbourhood deterministically.
@@ -676,7 +687,7 @@ fn gen_scenarios(out: &mut Out) {
         ],
     ];
     for ops in scen {
-        let h = Hist { tables: vec![(1, 1)], tokens: vec![0, 1, 5, 10, 11, 20, 21], dcs: vec![0, 1, 2], ops };
+        let h = Hist { kind: "Hs", tables: vec![(1, 1)], tokens: vec![0, 1, 5, 10, 11, 20, 21], dcs: vec![0, 1, 2], ops };
         let (o, _) = run_hist(&h);
         out.case(&hist_s(&h), &o);
     }
@@ -704,10 +715,10 @@ fn main() {
     let mut r = Rng::new(a.seed);
     for i in 0..a.n {
         let h = match i % 4 {
-            0 => { let len = r.range(8, 40) as usize; gen_random_history(&mut r, len, true, false) }
-            1 => { let len = r.range(10, 60) as usize; gen_random_history(&mut r, len, false, false) }
-            2 => { let len = r.range(40, 160) as usize; gen_random_history(&mut r, len, false, false) }
-            _ => { let len = r.range(8, 60) as usize; let small = r.bool(); gen_random_history(&mut r, len, small, true) }
+            0 => { let len = r.range(8, 40) as usize; gen_random_history(&mut r, "Hr", len, true, false) }
+            1 => { let len = r.range(10, 60) as usize; gen_random_history(&mut r, "Hi", len, false, false) }
+            2 => { let len = r.range(40, 160) as usize; gen_random_history(&mut r, "Hl", len, false, false) }
+            _ => { let len = r.range(8, 60) as usize; let small = r.bool(); gen_random_history(&mut r, "Hd", len, small, true) }
         };
         let (o, _) = run_hist(&h);
         out.case(&hist_s(&h), &o);
